@@ -283,6 +283,10 @@ func (g *j5Gen) apiService(name, pkg string, k *j5Known, listItem string, f *jFi
 		case 1:
 			parts = append(parts, "things", "all")
 		}
+		if nParams > 0 && pnames[0] == "thingId" && rng.Intn(4) == 0 {
+			// an ordinary request property whose name is a prefix of the path parameter's, declared before it
+			m.Req = append(m.Req, fld("thing", tScalar(kString)))
+		}
 		for pi := 0; pi < nParams; pi++ {
 			m.Req = append(m.Req, fld(pnames[pi], ppt[rng.Intn(len(ppt))]()))
 			parts = append(parts, ":"+pnames[pi])
@@ -301,10 +305,24 @@ func (g *j5Gen) apiService(name, pkg string, k *j5Known, listItem string, f *jFi
 		m.Path = "/" + strings.Join(parts, "/")
 		rest := g.fields(k, rng.Intn(5), "")
 		m.Req = append(m.Req, rest...)
-		dedupeFields(&m.Req)
 		if m.HasRes {
 			m.Res = g.fields(k, rng.Intn(5), "")
 		}
+		if f != nil && rng.Intn(4) == 0 {
+			// a flattened object directly in the request and/or the response: its members and the schemas they refer to
+			// belong to the method like those of any other field
+			tn := fmt.Sprintf("%sWindow%d", name, mi)
+			f.Elems = append(f.Elems, objDecl(tn, fld("windowMode", tRef(kEnum, tn+"Mode", pkg+"."+tn+"Mode")), fld("windowSize", tInt("INT32")), fld("windowNote", tRef(kObject, tn+"Note", pkg+"."+tn+"Note"))),
+				enumDecl(tn+"Mode", "FAST", "SLOW"), objDecl(tn+"Note", fld("noteText", tScalar(kString))))
+			where := rng.Intn(3)
+			if where != 1 {
+				m.Req = append(m.Req, fld("window", tRef(kObject, tn, pkg+"."+tn).with(func(t *jT) { t.Flatten = true })))
+			}
+			if where != 0 && m.HasRes {
+				m.Res = append(m.Res, fld("window", tRef(kObject, tn, pkg+"."+tn).with(func(t *jT) { t.Flatten = true })))
+			}
+		}
+		dedupeFields(&m.Req)
 		svc.Methods = append(svc.Methods, m)
 	}
 	if listItem != "" && f != nil {
